@@ -922,6 +922,84 @@ func (env *Env) evalCall(x *ast.CallExpr) Val {
 			return r
 		case "nilref":
 			return Val{T: types.Typ[types.UnsafePointer], C: []string{"0"}}
+		case "isClosure":
+			// isClosure(f, "(*T).M$bound"): f is a closure of that function
+			v := env.eval(x.Args[0])
+			s, _ := strconv.Unquote(x.Args[1].(*ast.BasicLit).Value)
+			e.declFun("closfn", "(Int) Int")
+			return Val{T: boolT, C: []string{eq(sx("closfn", v.C[0]), fmt.Sprint(e.closTag(s)))}}
+		case "closbind":
+			// closbind(f, i, w): the i-th value bound by closure f, of the type of w
+			v := env.eval(x.Args[0])
+			bi, _ := strconv.Atoi(x.Args[1].(*ast.BasicLit).Value)
+			w := env.eval(x.Args[2])
+			r := Val{T: w.T}
+			for ci, so := range e.layout(w.T) {
+				g := fmt.Sprintf("closb.%d.%d.%s", bi, ci, sanitize(so))
+				e.declFun(g, "(Int) "+so)
+				r.C = append(r.C, sx(g, v.C[0]))
+			}
+			return r
+		case "closcell":
+			// closcell(f, i, w): the current value (of the type of w) of the
+			// variable that closure f captured by reference as its i-th binding
+			v := env.eval(x.Args[0])
+			bi, _ := strconv.Atoi(x.Args[1].(*ast.BasicLit).Value)
+			w := env.eval(x.Args[2])
+			pt := types.NewPointer(w.T)
+			pv := Val{T: pt}
+			for ci, so := range e.layout(pt) {
+				g := fmt.Sprintf("closb.%d.%d.%s", bi, ci, sanitize(so))
+				e.declFun(g, "(Int) "+so)
+				pv.C = append(pv.C, sx(g, v.C[0]))
+			}
+			return e.loadPtr(env.st, pv, w.T)
+		case "closvar":
+			// closvar(f, "fn$1", v): the value of the variable named v that
+			// closure f (made of fn$1) captured, by reference or by value
+			v := env.eval(x.Args[0])
+			key, _ := strconv.Unquote(x.Args[1].(*ast.BasicLit).Value)
+			// closvar(f, "fn$1", "v", witness): the same, the type given by a witness
+			var vname string
+			var w Val
+			if lit, isLit := x.Args[2].(*ast.BasicLit); isLit && len(x.Args) == 4 {
+				vname, _ = strconv.Unquote(lit.Value)
+				w = env.eval(x.Args[3])
+			} else if vid, ok := x.Args[2].(*ast.Ident); ok {
+				vname = vid.Name
+				w = env.eval(x.Args[2])
+			} else {
+				env.fail(x, "closvar: third argument must be a variable name")
+			}
+			cf := e.world.lookupFunc(key)
+			if cf == nil {
+				env.fail(x, "closvar: no function %s", key)
+			}
+			bi := -1
+			for i, fv := range cf.FreeVars {
+				if fv.Name() == vname {
+					bi = i
+				}
+			}
+			if bi < 0 {
+				env.fail(x, "closvar: %s does not capture %s", key, vname)
+			}
+			bt := cf.FreeVars[bi].Type()
+			pv := Val{T: bt}
+			for ci, so := range e.layout(bt) {
+				g := fmt.Sprintf("closb.%d.%d.%s", bi, ci, sanitize(so))
+				e.declFun(g, "(Int) "+so)
+				pv.C = append(pv.C, sx(g, v.C[0]))
+			}
+			if pt, isP := bt.Underlying().(*types.Pointer); isP && types.Identical(pt.Elem().Underlying(), w.T.Underlying()) {
+				return e.loadPtr(env.st, pv, pt.Elem())
+			}
+			return pv
+		case "closrecv":
+			// the first value bound by a closure (the receiver of a bound method)
+			v := env.eval(x.Args[0])
+			e.declFun("closrecv", "(Int) Int")
+			return Val{T: types.Typ[types.UnsafePointer], C: []string{sx("closrecv", v.C[0])}}
 		case "asPtr":
 			v := env.eval(x.Args[0])
 			s, _ := strconv.Unquote(x.Args[1].(*ast.BasicLit).Value)
